@@ -58,6 +58,7 @@ pub enum MintTo {
     Proto, // u2 on the protocol chain
     Native, // n1 on the native chain
     Invalid,
+    Multi, // a string with a multi-byte character right after the protocol prefix
 }
 #[derive(Clone, Debug, PartialEq)]
 pub enum Funds {
@@ -195,6 +196,7 @@ pub fn run(b: &mut Built, op: &Op, pfx: &str, env: Envelope) -> StepOut {
                 MintTo::Proto => Some(who.u2.clone()),
                 MintTo::Native => Some(who.n1.clone()),
                 MintTo::Invalid => Some("osmo1invalid".to_string()),
+                MintTo::Multi => Some(format!("{}\u{e9}{}", who.pp, &who.u2[who.pp.len() + 1..])),
             };
             b.chain.fail_submit = faults.clone();
             let s = who_addr(&who, sender);
@@ -345,6 +347,7 @@ pub fn run(b: &mut Built, op: &Op, pfx: &str, env: Envelope) -> StepOut {
                 0 => who.val3.clone(),
                 1 => who.val1.clone(), // duplicate
                 2 => who.n1.clone(),   // wrong prefix
+                4 => format!("{}\u{e9}{}", &who.vp[..who.vp.len() - 1], &who.val3[who.vp.len() + 1..]),
                 _ => "garbage".to_string(),
             };
             b.chain.execute(&s, &[], ExecuteMsg::AddValidator { new_validator: v })
@@ -355,6 +358,7 @@ pub fn run(b: &mut Built, op: &Op, pfx: &str, env: Envelope) -> StepOut {
                 0 => who.val1.clone(),
                 1 => who.val3.clone(), // unknown
                 2 => who.n1.clone(),
+                4 => format!("{}\u{e9}{}", &who.vp[..who.vp.len() - 1], &who.val1[who.vp.len() + 1..]),
                 _ => "garbage".to_string(),
             };
             b.chain.execute(&s, &[], ExecuteMsg::RemoveValidator { validator: v })
@@ -838,12 +842,12 @@ pub fn post_op(cx: &Ctx, b: &Built, op: &Op, s: &StepOut) {
                     MintTo::None => who_addr(who, sender),
                     MintTo::Proto => who.u2.clone(),
                     MintTo::Native => who.n1.clone(),
-                    MintTo::Invalid => String::new(),
+                    MintTo::Invalid | MintTo::Multi => String::new(),
                 };
                 let same = who.pp == who.np;
                 let to_native = match mint_to {
                     MintTo::Native => !same || flag.unwrap_or(false),
-                    MintTo::Invalid => false,
+                    MintTo::Invalid | MintTo::Multi => false,
                     _ => same && flag.unwrap_or(false),
                 };
                 let lst_sends: Vec<&Emitted> = sends(msgs).into_iter().filter(|m| matches!(m, Emitted::Send { coins, .. } if coins.iter().any(|c| c.0 == lst))).collect();
@@ -868,7 +872,7 @@ pub fn post_op(cx: &Ctx, b: &Built, op: &Op, s: &StepOut) {
                 check_oracle(cx, s, msgs, true);
             } else if let Tx::Err(e) = &s.tx {
                 // error exactly for the documented reasons (valid inputs only)
-                let valid = !stopped && *funds == Funds::Native && *mint_to != MintTo::Invalid && !(matches!(sender, P::C32 | P::HookStaker | P::HookCollector | P::Contract | P::Treasury) && *mint_to == MintTo::None);
+                let valid = !stopped && *funds == Funds::Native && !matches!(mint_to, MintTo::Invalid | MintTo::Multi) && !(matches!(sender, P::C32 | P::HookStaker | P::HookCollector | P::Contract | P::Treasury) && *mint_to == MintTo::None);
                 if valid {
                     let mut reasons = vec![t::lt(&a, &min), t::eq(&m_spec, "0"), t::eq(&a, "0")];
                     if *expected {
